@@ -19,6 +19,130 @@ def _walk(t):
                 yield from _walk(x)
 
 
+# formatters whose spelling differs from inet_ntop for part of the address space
+DIVERGENT = {
+    "ipaddress.IPv6Address": "str(ipaddress.IPv6Address) spells IPv4-mapped addresses as hex "
+                             "groups (::ffff:a00:5) on Python < 3.13; inet_ntop prints "
+                             "::ffff:10.0.0.5",
+    "ipaddress.ip_address": "str(ipaddress.ip_address) spells IPv4-mapped addresses as hex "
+                            "groups on Python < 3.13; inet_ntop prints the dotted quad",
+    "binascii.hexlify": "a hex dump is not a textual IP address",
+    "socket.inet_ntoa": "inet_ntoa only formats 4-byte IPv4 addresses",
+}
+
+
+def _perm(term, n):
+    """Evaluate a byte-reordering pipeline on the n distinct bytes 0..n-1 of the
+    decoded hex column.  Returns the resulting bytes or None (outside the subset)."""
+    import struct
+    if not isinstance(term, tuple):
+        return None
+    if term[0] == "call" and term[1] in ("base64.b16decode", "binascii.unhexlify",
+                                         "bytes.fromhex"):
+        return bytes(range(n))
+    if term[0] == "slice":
+        b = _perm(term[1], n)
+        if b is None:
+            return None
+        lo, hi, st = (x[1] if isinstance(x, tuple) and x[0] == "const" else "?"
+                      for x in term[2:5])
+        if "?" in (lo, hi, st):
+            return None
+        return b[slice(lo, hi, st)]
+    if term[0] == "call" and term[1] == "struct.pack" and len(term) == 4 \
+            and term[2][0] == "const" and term[3][0] == "star":
+        inner = term[3][1]
+        if inner[0] == "call" and inner[1] == "struct.unpack" and inner[2][0] == "const":
+            b = _perm(inner[3], n)
+            if b is None:
+                return None
+            try:
+                return struct.pack(term[2][1], *struct.unpack(inner[2][1], b))
+            except struct.error:
+                return None
+    if term[0] == "call" and term[1] == "bytes" and len(term) == 3:
+        inner = term[2]
+        if inner[0] == "call" and inner[1] == "reversed":
+            b = _perm(inner[2], n)
+            return b[::-1] if b is not None else None
+    return None
+
+
+def _r5(ctx, repo, A, I, pm):
+    f = repo.func(pm, "NetConnections.decode_address")
+    t = canon(I.call_function(f, [("param", "addr"), ("param", "family")]))
+    recs = [a for a in alternatives(t) if a and a[0] == "nt"]
+    ctx.require(recs, "decode_address: no addr(ip, port) record")
+    ip = recs[0][3][0]
+
+    def select(term, fam4, little):
+        """Specialise the guarded term to one (family, endianness) configuration."""
+        if not isinstance(term, tuple):
+            return term
+        if term[0] == "gphi":
+            c = term[1]
+            v = None
+            if c == ("glob", "_pslinux.LITTLE_ENDIAN") or (c and c[0] == "glob"
+                                                          and c[1].endswith("LITTLE_ENDIAN")):
+                v = little
+            elif c[0] == "cmp" and c[1] in ("==", "!=") and ("param", "family") in c[2:4]:
+                other = c[3] if c[2] == ("param", "family") else c[2]
+                if other == ("ext", "socket.AF_INET"):
+                    v = fam4 if c[1] == "==" else not fam4
+                elif other == ("ext", "socket.AF_INET6"):
+                    v = (not fam4) if c[1] == "==" else fam4
+            if v is None:
+                return term
+            return select(term[2] if v else term[3], fam4, little)
+        return term
+    # kernel: each 32-bit word printed with %08X in HOST order
+    want = {
+        (True, True): bytes([3, 2, 1, 0]),
+        (True, False): bytes([0, 1, 2, 3]),
+        (False, True): bytes([3, 2, 1, 0, 7, 6, 5, 4, 11, 10, 9, 8, 15, 14, 13, 12]),
+        (False, False): bytes(range(16)),
+    }
+    for fam4 in (True, False):
+        for little in (True, False):
+            key = f"{'v4' if fam4 else 'v6'}:{'little' if little else 'big'}-endian"
+            v = select(ip, fam4, little)
+            if v[0] in ("gphi", "phi"):
+                ctx.advisory(f"C11.R5 {key}: the address expression is not a single "
+                             f"pipeline (`{pretty(v)[:80]}`); not decided")
+                ctx.ok("C11.R5", key, sample="not decided", nontrivial=False)
+                continue
+            fmt, arg = None, None
+            cur = v
+            if cur[0] == "call" and cur[1] == "str" and len(cur) == 3:
+                cur = cur[2]
+            if cur[0] == "call":
+                fmt = cur[1]
+                arg = cur[-1]
+            if fmt == "socket.inet_ntop":
+                fam = cur[2]
+                famok = fam == ("param", "family") or \
+                    fam == ("ext", "socket.AF_INET" if fam4 else "socket.AF_INET6")
+                got = _perm(arg, 4 if fam4 else 16)
+                if got is None:
+                    ctx.advisory(f"C11.R5 {key}: byte pipeline `{pretty(arg)[:80]}` is outside "
+                                 f"the evaluated subset; not decided")
+                    ctx.ok("C11.R5", key, sample="not decided", nontrivial=False)
+                elif got == want[(fam4, little)] and famok:
+                    ctx.ok("C11.R5", key, sample=f"inet_ntop(bytes {list(got)})")
+                else:
+                    ctx.fail("C11.R5", key, f.file, f.node.lineno, f.qual,
+                             f"{key}: the hex column's bytes reach inet_ntop in order "
+                             f"{list(got)}, the kernel's format needs {list(want[(fam4, little)])}"
+                             + ("" if famok else "; wrong address family passed"))
+            elif fmt in DIVERGENT and not (fam4 and fmt.startswith("ipaddress.")):
+                ctx.fail("C11.R5", key, f.file, f.node.lineno, f.qual,
+                         f"{key}: address rendered with {fmt}: {DIVERGENT[fmt]}")
+            else:
+                ctx.advisory(f"C11.R5 {key}: formatter `{pretty(v)[:80]}` is not one this "
+                             f"rule knows; not decided")
+                ctx.ok("C11.R5", key, sample="not decided", nontrivial=False)
+
+
 def cols(v):
     out = []
     for a in collect(v, lambda x: x and x[0] == "idx"):
@@ -401,7 +525,15 @@ def run(ctx):
     else:
         ctx.fail("C11.R4", "inodes", gi.file, gi.node.lineno, gi.qual,
                  "socket inode collection changed (socket:[N] -> (pid, fd))")
-    ctx.assume("hexadecimal / endianness address decoding is value-level and not decided")
+    # ------------------------------------------------------------------- R5
+    ctx.rule("C11.R5", "address text: for IPv4/IPv6 x little/big endian hosts the hex "
+             "column is turned into network-order bytes by the byte permutation the "
+             "kernel's %08X-per-host-order-word format requires, and rendered by "
+             "inet_ntop (the kernel-style spelling, dotted quad for mapped addresses)",
+             floor=4)
+    _r5(ctx, repo, A, I, pm)
+    ctx.assume("the numeric value of individual addresses is not enumerated; the byte "
+               "permutation and the formatter are decided per family/endianness")
     return ("AST evaluation of the two kind tables and their set comparison, dominance "
             "of the kind validation, abstract interpretation of the /proc/net parsers "
             "(columns, header, bounded split for the free-text path, port base), table "
